@@ -243,6 +243,16 @@ def rest(ctx):
             good = good and bool(inloop) and any(e.kind == "CALL" and e["func"] == N.selfattr("decoder") for e in p.events)          # a chunk that was read is decoded and appended
         sw = [e["value"] for e in p.events if e.kind == "SELFWRITE" and e["attr"] == "sincereadwritten"]
         good = good and len(sw) == 1 and sw[0] == N.mk_add(N.selfattr("sincereadwritten"), ("call", ("free", "len"), (r,), ()))
+    # the iteration that goes on (a chunk was read): exactly that chunk is decoded and appended at the end of the buffer
+    steps = [evs for p in paths[:1] for lid, evs, env_ in p.loop_steps]
+    cont = [evs for evs in steps if any(e.kind == "RAWIO" for e in evs) and any(e.kind == "ASSUME" and e["cond"][0] == "bool" and e["cond"][1] == "and" for e in evs)
+            and not any(e.kind == "ASSUME" and e["cond"][0] == "cmp" and cnt in e["cond"][2:] for e in evs)]
+    okc = bool(cont)
+    for evs in cont:
+        raw = [e for e in evs if e.kind == "RAWIO"]
+        wr = [e for e in evs if e.kind == "SELFWRITE" and e["attr"] == "rbuffer"]
+        okc = okc and len(raw) == 1 and len(wr) == 1 and wr[0]["value"][0] in ("uconcat", "concat") and wr[0]["value"][2] == ("call", N.selfattr("decoder"), (raw[0]["res"],), ())
+    good = good and okc
     ctx.ob("C10.R4", fi, good, "read() to the end returns the pending units followed by every decoded chunk in order, empties the buffer and advances tell() by what it returned", key="read all")
     # the guards of read(): only a negative count is refused; the substream is at its end when it returns None or nothing
     neg = [p for p in paths if p.outcome[0] == "raise" and N.mk_cmp("is not", cnt, N.NONE) in p.guards()]
